@@ -374,7 +374,8 @@ func subOverflows(a, b Integer) bool {
 
 //@ func bFor
 //@ ensures [C03.exit-scoped] result != errExit
-//@ loop 1 exit-when [C03.for.exit] (increment > 0 && val > limit) || (increment < 0 && val < limit) || (live(err) && err == errExit)
+//@ loop 1 exit-when [C03.for.exit] (increment > 0 && val > limit) || (increment < 0 && val < limit) || (live(err) && err == errExit) || (increment > 0 && val <= limit && val > 9223372036854775807 - increment) || (increment < 0 && val >= limit && val < -9223372036854775808 - increment)
+//@ loop 1 back-when [C03.for.advance] (increment > 0 ==> val > prev(val)) && (increment < 0 ==> val < prev(val))
 
 //@ func bRepeat
 //@ ensures [C03.exit-scoped] result != errExit
